@@ -240,3 +240,149 @@ func (e *Engine) modelRange(st *State, fr *Frame, m Val, f Val, pos token.Pos, i
 	e.inlined[funcDisplayName(fn)] = true
 	_ = fmt.Sprint
 }
+
+// modelIterate: a repository function whose contract says "iterates f(...)" is called with a closure for f. The call is
+// modelled as an arbitrary number of runs of the closure on arguments that satisfy the iterates-requires clauses:
+// state written by the closure is havocked, one symbolic run is executed, the state is havocked again. The caller's
+// "at iterate <callee>:" assertions are checked after the symbolic run (from an arbitrary earlier state) and assumed
+// after the call on the branch with at least one run; the branch with no run is excluded when the callee's
+// nonempty-when condition holds. The callee's requires clauses are checked as for any call by contract.
+func (e *Engine) modelIterate(st *State, fr *Frame, callee *ssa.Function, ct *Contract, args []Val, pos token.Pos, ins ssa.Instruction) bool {
+	is := ct.Iter
+	pi := -1
+	for i, p := range callee.Params {
+		if p.Name() == is.Param {
+			pi = i
+		}
+	}
+	if pi < 0 || pi >= len(args) || args[pi].C == nil {
+		return false
+	}
+	f := args[pi]
+	fn := f.C.Fn
+	e.calledByContract[funcDisplayName(callee)] = true
+	cenv := &Env{eng: e, st: st, pkg: e.pkgOf(callee), vars: map[string]Val{}, where: "call " + funcDisplayName(callee)}
+	e.bindParams(cenv, callee, args)
+	for _, rq := range cenv.expand(ct.Requires) {
+		name := e.siteName(st, fr, "requires@"+funcDisplayName(callee)+"["+rq.name+"]", pos, ins)
+		st.check("requires", name, rq.term, pos)
+	}
+	calleeVars := cenv.vars
+	mkFrame := func(s *State) *Frame {
+		nf := e.newFrame(fn)
+		nf.freeVars = f.C.Bindings
+		env := &Env{eng: e, st: s, pkg: e.pkgOf(callee), vars: map[string]Val{}, where: "iterates of " + funcDisplayName(callee)}
+		for k, v := range calleeVars {
+			env.vars[k] = v
+		}
+		for i, p := range fn.Params {
+			v := s.freshVal("iter_"+p.Name(), p.Type())
+			e.assumeAllocatedDeep(s, v)
+			if ti := typeInv(v.S, p.Type()); ti != "" {
+				s.assume(ti)
+			}
+			nf.regs[p] = v
+			if i < len(is.Formals) {
+				env.vars[is.Formals[i]] = v
+			}
+		}
+		for _, rq := range env.expand(is.Requires) {
+			s.assume(rq.term)
+		}
+		return nf
+	}
+	writes := map[string]bool{}
+	for iter := 0; iter < 3; iter++ {
+		d := st.clone()
+		d.quiet++
+		d.writes = map[string]bool{}
+		d.lwrites = map[*ssa.Alloc]bool{}
+		for h := range writes {
+			d.havocHeap(h)
+		}
+		nf := mkFrame(d)
+		d.frames = append(d.frames, nf)
+		blocks := map[*ssa.BasicBlock]bool{}
+		for _, b := range fn.Blocks {
+			blocks[b] = true
+		}
+		d.stop = &stopCtx{depth: len(d.frames), blocks: blocks}
+		e.run(d)
+		grew := false
+		for h := range d.writes {
+			if !writes[h] {
+				writes[h] = true
+				grew = true
+			}
+		}
+		if !grew {
+			break
+		}
+	}
+	havoc := func(s *State) {
+		for _, h := range sortedKeys(writes) {
+			if h == "$alloc" {
+				s.bumpFrontier()
+				continue
+			}
+			s.havocHeap(h)
+		}
+	}
+	var events []*EventClause
+	if cc := e.contractFor(fr.fn); cc != nil {
+		for _, ev := range cc.Events {
+			if ev.Kind == "at" && (ev.Target == "iterate "+funcDisplayName(callee) || ev.Target == "iterate "+callee.Name()) {
+				ev.Fired++
+				events = append(events, ev)
+			}
+		}
+	}
+	// no run at all: only when the callee does not promise at least one
+	if other := e.fork(st); other != nil {
+		feasible := true
+		if is.NonEmpty != nil {
+			oenv := &Env{eng: e, st: other, pkg: e.pkgOf(callee), vars: calleeVars, where: "nonempty-when of " + funcDisplayName(callee)}
+			c := oenv.evalBool(is.NonEmpty)
+			if c == "true" {
+				feasible = false
+			} else {
+				other.assume(not(c))
+			}
+		}
+		if feasible {
+			other.trace = append(other.trace, "iterate:0")
+			e.run(other)
+		}
+	}
+	st.trace = append(st.trace, "iterate:n")
+	e.assumptions["higher-order iteration ("+funcDisplayName(callee)+"): the callback runs some number of times on arguments satisfying the iterates-requires clauses; state it writes is havocked around one symbolic run"] = true
+	havoc(st)
+	nf := mkFrame(st)
+	caller := fr
+	nf.onReturn = func(s *State, results []Val) {
+		for _, ev := range events {
+			env := e.eventEnv(s, caller, ev, nil)
+			for i, a := range ev.Asserts {
+				nm := a.Name
+				if nm == "" {
+					nm = fmt.Sprint(i)
+				}
+				name := fmt.Sprintf("%s#iterate[%s].after[%s]", funcDisplayName(caller.fn), callee.Name(), nm)
+				if caller.fn != s.unit.Fn {
+					name = s.unit.Name + ">" + name
+				}
+				s.oblige("iterate-after", name, env.evalBool(a.Expr), pos)
+			}
+		}
+		havoc(s)
+		for _, ev := range events {
+			env := e.eventEnv(s, caller, ev, nil)
+			for _, a := range ev.Asserts {
+				s.assume(env.evalBool(a.Expr))
+			}
+		}
+	}
+	st.frames = append(st.frames, nf)
+	e.inlined[funcDisplayName(fn)] = true
+	return true
+}
